@@ -222,7 +222,7 @@ def run(ctx: Ctx) -> Collector:
     sh = Shaper(ctx)
     typer = sh.typer
     n_sites = n_known = n_constr = 0
-    for fi in ctx.prog.all_functions():
+    for fi in analysis_units(ctx.prog):
         if fi.module.name in ("mosaik.tiered_time", "mosaik.util"):
             continue
         s = summarise(ctx.prog, fi)
